@@ -39,7 +39,7 @@ def merge_cases(pid, tier, seed):
     else:
         if tier == 'quick':
             cases += list(gen_pos.story_cases(ns=(0, 1, 2, 3), patterns=('lead', 'none', 'every')))
-            cases += list(gen_pos.item_cases(ms=(0, 1, 2, 3), item_patterns=('plain', 'every'), positions=(1,)))
+            cases += list(gen_pos.item_cases(ms=(0, 1, 2, 3), item_patterns=('plain', 'every', 'first'), positions=(1,)))
         else:
             cases += list(gen_pos.story_cases(ns=(0, 1, 2, 3, 4, 5), max_src=3, big_patterns=('every', 'lead')))
             cases += list(gen_pos.item_cases(ms=(0, 1, 2, 3, 4), max_src=3, positions=(0, 1, 2)))
@@ -91,6 +91,8 @@ def make_merge_check(pid):
     def run(tier, seed):
         cases = merge_cases(pid, tier, seed)
         oc = merge_family.evaluate(pid, cases)
+        if pid in ('C01', 'C02', 'C03', 'C04', 'C06'):
+            merge_family.history_level(oc, pid, cases)
         if pid == 'C07':
             # the collection's `completed`, before and after its merge, and collections over re-used readers
             from . import coll_family
